@@ -1,3 +1,4 @@
+pub mod chaos;
 pub mod exchange;
 pub mod exgen;
 pub mod recv;
